@@ -160,6 +160,23 @@ static void window_edge_cases(u8* data)
     }
 }
 
+/* single-byte RUNS cut by the window edge: an older run R1 of a byte and, one window later, a longer run R2 of the same byte, placed so that
+ * position (start of R2) - 65535 falls strictly inside R1 (only part of R1 is still visible).  This is the geometry in which the HC "pattern analysis"
+ * (levels 9+) extends a match backwards over a run it cannot fully see; every level and the fast compressor are run on it. */
+static void run_window_edge_cases(u8* data, int reps)
+{
+    int r, e; static const int ents[] = {E_DEFAULT, E_HC, E_HC, E_HC, E_HC, E_HC, E_HC_FAVOR, E_HC_EXTSTATE}; static const int params[] = {1, 2, 3, 9, 10, 12, 11, 9};
+    for (r = 0; r < reps; r++) {
+        size_t A = 5 + rndn(rndp(70) ? 60 : 400), vis = 1 + rndn((u32)A - 1), B = vis + 1 + rndn(200), p0 = 10 + rndn(3000);
+        size_t s2 = p0 + (A - vis) + 65535, n = s2 + B + 20 + rndn(300), i; u8 b = (u8)rnd();
+        if (n > (256u << 10)) continue;
+        for (i = 0; i < n; i++) { u8 v = (u8)rnd(); data[i] = (v == b) ? (u8)(v + 1) : v; }      /* filler never contains b: no nearer run of b */
+        memset(data + p0, b, A); memset(data + s2, b, B);
+        if (rndp(30)) memset(data + s2 + B + 5, b, 4);                                            /* a short decoy run after R2 */
+        for (e = 0; e < 8; e++) do_case(data, n, ents[e], params[e], LZ4_compressBound((int)n), D_RUNS, 1);
+    }
+}
+
 /* long literal runs followed by a match, capacity swept across the tight region (limited-output guards are exact for wildCopy8) */
 static void long_literal_sweep(u8* data, int nL, int thorough)
 {
@@ -186,6 +203,7 @@ int main(int argc, char** argv)
         int ncases = thorough ? 40000 : 2500;
         exhaustive_ab(thorough ? 16 : 11, ents, !strcmp(mode, "c06") ? 3 : 4);
         window_edge_cases(data);
+        run_window_edge_cases(data, thorough ? 400 : 40);
         tiny_alphabet_sweep(data, thorough ? 40000 : 3000);
         for (i = 0; i < ncases; i++) {
             int kind = (int)rndn(D_KINDS); size_t n = gen_size(i % 50 == 0 ? maxn : (i % 7 == 0 ? 70000 : 3000));
